@@ -26,6 +26,7 @@ mod absmsg;
 mod conc;
 mod core;
 mod drive;
+mod frames;
 mod procs;
 mod replay;
 mod timers;
@@ -63,6 +64,7 @@ fn main() {
         "drive" => drive::main(&args[2..]),
         "conc" => conc::main(&args[2..]),
         "vectors" => vectors::main(&args[2..]),
+        "frames" => frames::main(&args[2..]),
         "vecchild" => vectors::child_main(),
         "timers" => timers::main(&args[2..]),
         "procs" => procs::main(&args[2..]),
